@@ -11,6 +11,7 @@ RULE = ("grammar-generated histories (10-40 ops: inbound lines of every handler 
         "real gateway and on the extracted model; non-trivial = distinct history in which at least one line was accepted "
         "and at least one was rejected.  Plus 8 two-thread scenarios (a controller call in one thread, the pump handling a "
         "queued line in another): every interleaving at source-line granularity up to 1 (quick) / 2 (thorough) preemptions")
+RULE += ' MONITORS ONLY (no model): every 12th history runs with an event callback that answers value reports by calling set_child_value from INSIDE the callback (a pump that blocks on itself is interrupted by a watchdog alarm and reported).'
 ASSUMPTIONS = ["a dying poll thread is represented by an exception escaping Tasks.run_job / transport.send",
                "float(), awesomeversion are oracles fed with the library's real verdicts"]
 THEOREMS_DOC = {
